@@ -87,6 +87,7 @@ THEOREMS = [
     "OllamaVerif.C06.remove_ok_of_guard_none",
     "OllamaVerif.C06.removeV_ok_eq",
     "OllamaVerif.C06.removeV_inv",
+    "OllamaVerif.C06.refused_remove_then_clear",
     "OllamaVerif.C06.F28_refused_remove_shared",
     "OllamaVerif.C06.F28_refused_remove_notsup",
     "OllamaVerif.C06.canResume_sound",
